@@ -74,6 +74,8 @@ def main():
                 props = [json.load(open(meta))["property"]] if os.path.exists(meta) else []
         jobs.append((p, [x.strip() for x in props]))
     ok = True
+    record = "--record" in sys.argv
+    table = []
     with concurrent.futures.ThreadPoolExecutor(max_workers=4) as ex:
         for path, out in ex.map(lambda j: run_one(j[0], j[1], tier, extra), jobs):
             name = os.path.relpath(path, VERIF)
@@ -82,6 +84,23 @@ def main():
                 ok = ok and caught
                 print("%-45s %-4s %s %s" % (name, prop, "CAUGHT" if caught else "MISSED", r))
                 sys.stdout.flush()
+                oracles = sorted(set(re.findall(r"\('([^']+)', '[^']+', '(?:cy|pure)'\)", r)))
+                table.append((name, prop, caught, oracles))
+                if record and name.startswith("seeded/"):
+                    import json
+                    mp = os.path.join(VERIF, os.path.dirname(name), "meta.json")
+                    meta = json.load(open(mp))
+                    cb = [c for c in meta.get("caught_by", []) if not c.startswith(prop + " ")]
+                    cb.append("%s quick: %s" % (prop, ("caught by oracle(s) " + ", ".join(oracles)) if caught else "MISSED"))
+                    meta["caught_by"] = cb
+                    json.dump(meta, open(mp, "w"), indent=1)
+    if record:
+        with open(os.path.join(VERIF, "SELFTEST.md"), "w") as f:
+            f.write("# Self-test: which check catches which deliberate change\n\n")
+            f.write("Produced by `tools/selftest.py --record` (each change applied to a scratch copy of /repo, the named property's quick check run with --repo; exit 1 = caught).\n\n")
+            f.write("| change | property | result | oracle(s) that fired |\n|---|---|---|---|\n")
+            for name, prop, caught, oracles in sorted(table):
+                f.write("| %s | %s | %s | %s |\n" % (name, prop, "caught" if caught else "MISSED", ", ".join(oracles)))
     sys.exit(0 if ok else 1)
 
 
